@@ -1,7 +1,9 @@
 (* Engine.v — mirror of ikos::interleaved_fwd_fixpoint_iterator / wto_iterator
    (fixpoint/interleaved_fixpoint_iterator.hpp), generic in the abstract value type and in
    the block transformer: visit(vertex), visit(cycle) with the skip logic for an analysis
-   entry in the middle of the WTO, predecessor joins filtered by WTO nesting, increasing
+   entry in the middle of the WTO (the initial value flows into the entry block together
+   with its predecessors' posts, also when that block lies inside a loop), predecessor
+   joins filtered by WTO nesting, increasing
    iterations with extrapolation after widening_delay, post-fixpoint replacement,
    decreasing iterations with meet-then-narrowing, assumption maps.  Loops take fuel;
    None = out of fuel. *)
@@ -25,6 +27,7 @@ Section Engine.
   Variable delay descending : nat.           (* fixpoint parameters *)
   Variable use_asm : bool.                   (* assumption map given and non-empty *)
   Variable asm : nat -> option A.
+  Variable init : A.                         (* initial value: flows into the entry block *)
 
   Record est : Type := mkE { e_pre : nat -> A; e_post : nat -> A; e_skip : bool }.
 
@@ -34,16 +37,19 @@ Section Engine.
   Definition strengthen (n : nat) (inv : A) : A :=
     if use_asm then match asm n with Some a => o_meet OP inv a | None => inv end else inv.
 
+  Definition join_posts_from (post : nat -> A) (ps : list nat) (a0 : A) : A :=
+    fold_left (fun acc p => o_join OP acc (post p)) ps a0.
   Definition join_posts (post : nat -> A) (ps : list nat) : A :=
-    fold_left (fun acc p => o_join OP acc (post p)) ps (o_bot OP).
+    join_posts_from post ps (o_bot OP).
 
   Definition visit_vertex (n : nat) (st : est) : est :=
     let skip := if e_skip st && Nat.eqb n entry then false else e_skip st in
     if skip then mkE (e_pre st) (e_post st) skip
     else
+      (* the initial value flows into the entry block together with its predecessors' posts *)
       let pre :=
-        if Nat.eqb n entry then strengthen n (e_pre st n)
-        else strengthen n (join_posts (e_post st) (preds n)) in
+        strengthen n (join_posts_from (e_post st) (preds n)
+                                      (if Nat.eqb n entry then init else o_bot OP)) in
       mkE (tset (e_pre st) n pre) (tset (e_post st) n (analyze n pre)) skip.
 
   (* member_component_visitor *)
@@ -130,9 +136,10 @@ Section Engine.
       if e_skip st && negb entry_in then Some st
       else
         let st := mkE (e_pre st) (e_post st) false in
-        let entry_pre := if entry_in then Some (e_pre st entry) else None in
+        let entry_is_head := Nat.eqb h entry in
+        let entry_pre := if entry_is_head then Some init else None in
         let pre0 :=
-          if entry_in then e_pre st entry
+          if entry_is_head then init
           else fold_left (fun acc p => if deeper (nest p) (nest h) then acc
                                        else o_join OP acc (e_post st p)) (preds h) (o_bot OP) in
         let pre0 := strengthen h pre0 in
@@ -151,6 +158,6 @@ Section Engine.
     end.
 
   (* run(entry, init, assumptions): all tables bottom, pre(entry) = init, skip = true *)
-  Definition run (w : list comp) (init : A) : option est :=
+  Definition run (w : list comp) : option est :=
     visit_all w (mkE (tset (fun _ => o_bot OP) entry init) (fun _ => o_bot OP) true).
 End Engine.
